@@ -4,21 +4,24 @@ specs/kvm: KVMWords.tla (256-bit words as byte sequences, symbolic address bytes
 interpreter transcribed from kvm/interpreter.go, instructions.go, instruction_set.go, contract.go, memory.go,
 kvm.go), KVMAsm.tla (statement grammar, assembler, library contracts, projection), MC_KVM.tla (a TLC state is
 one program; exhaustive enumeration / simulation; invariants on the specified final state; one dump line per
-program), MC_KVMSteps.tla (one TLC state per machine configuration: directed 1024-limit executions).
+program), MC_KVMSteps.tla (one TLC state per machine configuration: directed 1024-limit executions), KVMTrace.tla
+(per-instruction validation of recorded real executions), KVMArith.tla (certificate checking: the defining laws of
+MUL/DIV/MOD/SDIV/SMOD/ADDMOD/MULMOD/EXP and the other ALU instructions on recorded full 256-bit results).
 harness/kvm: TestReplay (every dump line in the real kvm.KVM, both instruction sets, twice), TestTour (the
 specification's instruction table against the real jump tables for all 256 byte values), TestRandom (seeded
-random byte strings for the never-crashes clauses; the specification contributes the outcome domain)."""
+random byte strings for the never-crashes clauses; the specification contributes the outcome domain), TestRecord
+(traces for KVMTrace), TestArith (operands / results / untrusted witnesses for KVMArith)."""
 import os
 from vlib import Infra
 
 OP = dict(STOP=0, ADD=1, MUL=2, SUB=3, DIV=4, SDIV=5, MOD=6, SMOD=7, ADDMOD=8, MULMOD=9, EXP=10, SIGNEXTEND=11,
-          LT=16, GT=17, SLT=18, SGT=19, EQ=20, ISZERO=21, AND=22, OR=23, XOR=24, NOT=25, BYTE=26, SHL=27, SHR=28, SAR=29,
+          LT=16, GT=17, SLT=18, SGT=19, EQ=20, ISZERO=21, AND=22, OR=23, XOR=24, NOT=25, BYTE=26, SHL=27, SHR=28, SAR=29, SHA3=32,
           ADDRESS=48, BALANCE=49, ORIGIN=50, CALLER=51, CALLVALUE=52, CALLDATALOAD=53, CALLDATASIZE=54, CALLDATACOPY=55,
-          CODESIZE=56, CODECOPY=57, GASPRICE=58, EXTCODESIZE=59, EXTCODECOPY=60, RETURNDATASIZE=61, RETURNDATACOPY=62,
+          CODESIZE=56, CODECOPY=57, GASPRICE=58, EXTCODESIZE=59, EXTCODECOPY=60, RETURNDATASIZE=61, RETURNDATACOPY=62, EXTCODEHASH=63,
           BLOCKHASH=64, COINBASE=65, TIMESTAMP=66, NUMBER=67, GASLIMIT=68, UNDEF45=69, CHAINID=70, SELFBALANCE=71,
           POP=80, MLOAD=81, MSTORE=82, MSTORE8=83, SLOAD=84, SSTORE=85, JUMP=86, JUMPI=87, PC=88, MSIZE=89, JUMPDEST=91,
           DUP1=128, DUP2=129, SWAP1=144, SWAP2=145, LOG0=160, LOG1=161, LOG2=162,
-          CREATE=240, CALL=241, CALLCODE=242, RETURN=243, DELEGATECALL=244, STATICCALL=250, REVERT=253, INVALID=254,
+          CREATE=240, CALL=241, CALLCODE=242, RETURN=243, DELEGATECALL=244, CREATE2=245, STATICCALL=250, REVERT=253, INVALID=254,
           SELFDESTRUCT=255)
 A, B, C = 161, 162, 163
 ALLGAS = -2
@@ -100,8 +103,23 @@ def vectors(th):
            X("CALLDATACOPY", 1, 2, 33), X("CALLDATACOPY", 0, 30, 40), X("CODECOPY", 3, 1, 8), X("CODECOPY", 0, 200, 5),
            X("MSTORE", 5, 513), X("MSTORE8", 70, 255), X("MLOAD", 1), X("LOG0", 2, 35), X("LOG2", 0, 0, 5, 6),
            X("LOG1", 31, 2, 9), X("REVERT", 0, 32), X("RETURN", 1, 2), X("CALLDATACOPY", -1, 0, 1), X("MLOAD", -1),
-           X("CALLDATACOPY", -1, 0, 0), X("RETURN", -1, 0), X("LOG0", 0, -1)]
-    V.append(dict(name="mem", alpha=mem, maxlen=3 if th else 2, suffix=RET_MEM, envs=[env(cd=2), env(cd=3)]))
+           X("CALLDATACOPY", -1, 0, 0), X("RETURN", -1, 0), X("LOG0", 0, -1),
+           X("EXTCODECOPY", B, 0, 3, 40), X("EXTCODECOPY", B, 1, -1, 8), X("EXTCODECOPY", 0x77, 0, 0, 8), X("CODECOPY", 0, -1, 8),
+           X("LOG2", 1, 1, -1, 7)]
+    V.append(dict(name="mem", alpha=mem, maxlen=3 if th else 2, suffix=RET_MEM, envs=[env(b=1, cd=2), env(b=1, cd=3)]))
+    # ---- Keccak as an uninterpreted injective function: SHA3 (slice edges: size 0, huge offset with size 0, a slice that
+    #      crosses the end of the memory and is zero-extended, hash of a hash), EXTCODEHASH (contract, empty, absent,
+    #      balance-only account, precompile)
+    hsh = [X("MSTORE", 0, 17), X("MSTORE8", 33, 5), X("SHA3", 0, 32), X("SHA3", 0, 0), X("SHA3", 31, 2), X("SHA3", 0, 70),
+           X("SHA3", -1, 0), X("SHA3", 0, -1), X("SHA3", 40, 1), X("SSTORE", 0), X("SSTORE", 1), X("MSTORE", 0), X("EQ"), X("DUP1"),
+           X("ISZERO"), CALLS("STATICCALL", 0x77), X("EXTCODEHASH", B), X("EXTCODEHASH", 0x77), X("EXTCODEHASH", 224), X("EXTCODEHASH", A), X("EXTCODEHASH", 4)]
+    V.append(dict(name="hash", alpha=hsh, maxlen=4 if th else 3, suffix=RET_MEM, envs=[env(b=1, pre=1)]))
+    # ---- CREATE2: address = keccak(0xff ++ creator ++ salt ++ keccak(init)), same salt twice (collision), value, revert
+    cr2 = PUTINIT_REV[:1] + [X("MSTORE", 0), X("CREATE2", 0, 16, 16, 5), X("CREATE2", 1, 16, 16, 5), X("CREATE2", 0, 16, 16, 6),
+                             X("CREATE2", 0, 0, 0, 5), X("CREATE2", 20, 16, 16, 5), X("CREATE", 0, 16, 16), X("SSTORE", 6), X("SSTORE", 7),
+                             X("DUP1"), CALLTOP, X("EXTCODEHASH"), X("EXTCODESIZE"), X("EQ"), X("REVERT", 0, 0), X("SELFDESTRUCT", B)]
+    V.append(dict(name="create2", alpha=cr2, maxlen=4 if th else 3, prefix=PUTINIT, suffix=[X("STOP")],
+                  envs=[env(pre=1), env(mode=1, v=3)]))
     # ---- control flow: labels, jumps into PUSH data, beyond the end, truncated PUSH
     n = 4 if th else 3
     jmp = [J(k, i) for k in ("j", "ji") for i in range(1, n + 3)] + [J("jd", i) for i in range(1, 4)] + \
@@ -140,6 +158,34 @@ def vectors(th):
                   envs=[env(pre=1), env(pre=0), env(mode=1, v=3), env(b=13, pre=1)]))
     if th:
         V.append(dict(name="create4", alpha=cr, maxlen=4, suffix=[X("STOP")], envs=[env(pre=1), env(mode=1, v=3)]))
+    # ---- boundary catalogue: every offset / length / size / index / destination / shift operand takes the values around
+    #      2^16, 2^31, 2^32, 2^63, 2^64, 2^255, 2^256-1 while the others take 0, 1, 32; with a 32-byte and an empty return
+    #      buffer (the prefix calls B).  The specification takes every sum in full width; lines without a verdict (memory
+    #      between MemCap and 2^64) still run for the never-panics clause.
+    BV = [0, 1, 31, 32, 33] + [-(99 + i) for i in range(1, 15)] + [-1]
+    BO = [0, 1, 32]
+    bnd = []
+    pairs = [(v, o) for v in BV for o in BO] + [(o, v) for v in BV for o in BO]
+    for v in BV:
+        bnd += [X("MLOAD", v), X("CALLDATALOAD", v), X("JUMP", v), X("JUMPI", v, 1), X("MSTORE", v, 1), X("MSTORE8", v, 1),
+                X("EXTCODESIZE", v), X("BALANCE", v) if v in (0, 1) else X("BLOCKHASH", v)]
+        for val in (-1, -112):          # 2^256-1 and 2^255
+            bnd += [X(o, v, val) for o in ("BYTE", "SHL", "SHR", "SAR", "SIGNEXTEND")]
+    for (p, q) in pairs:
+        bnd += [X("SHA3", p, q), X("LOG0", p, q), X("LOG1", p, q, 9), X("RETURN", p, q), X("REVERT", p, q), X("CREATE", 0, p, q),
+                X("CREATE2", 0, p, q, 5)]
+        for k in ("CALL", "STATICCALL", "DELEGATECALL", "CALLCODE"):
+            bnd += [CALLS(k, B, 0, q, 0, p, 0), CALLS(k, B, 0, 0, q, 0, p)]        # (in offset, in size), (out offset, out size)
+    for pos in range(3):
+        for v in BV:
+            for o1 in BO:
+                for o2 in BO:
+                    t = [o1, o2]
+                    t.insert(pos, v)
+                    bnd += [X("CALLDATACOPY", *t), X("CODECOPY", *t), X("RETURNDATACOPY", *t), X("EXTCODECOPY", B, *t)]
+    bnd = sorted(set(bnd))
+    V.append(dict(name="bounds", alpha=bnd, maxlen=1, prefix=[CALLS("CALL", B, 0, 0, 0)], suffix=RET_MEM,
+                  envs=[env(b=4, cd=2), env(b=0, cd=2)]))
     # ---- environment instructions, both instruction sets (CHAINID only in v2; 0x45 undefined in both)
     envops = ["ADDRESS", "ORIGIN", "CALLER", "CALLVALUE", "GASPRICE", "COINBASE", "TIMESTAMP", "NUMBER", "GASLIMIT", "UNDEF45",
               "CHAINID", "SELFBALANCE", "CODESIZE"]
@@ -179,8 +225,11 @@ def run(c):
     c.rule = ("MC_KVM: every program of at most N statements over nine themed alphabets (stack/ALU incl. wrap-around, "
               "memory/calldata/code/logs, labelled jumps incl. jumps into PUSH data and beyond the code, the four call kinds "
               "with value against 15 library callees at B and C, programs run inside a STATICCALL of themselves, the identity "
-              "precompile and the return data buffer, CREATE / top-level Create, environment instructions in both instruction "
-              "sets) plus TLC simulation walks of 10 statements; MC_KVMSteps: 12 directed executions at the 1024-item stack "
+              "precompile and the return data buffer, CREATE / top-level Create, SHA3 / EXTCODEHASH with Keccak as an uninterpreted "
+              "injective function, CREATE2 incl. collisions, a boundary catalogue of every offset/length/index operand around "
+              "2^31, 2^32, 2^63, 2^64, 2^255, environment instructions in both instruction sets) plus TLC simulation walks of 10 "
+              "statements; KVMArith: the defining law of every ALU instruction evaluated by TLC on results the real machine "
+              "returned for an edge catalogue and seeded 256-bit operands; MC_KVMSteps: 12 directed executions at the 1024-item stack "
               "limit and the 1024 call depth limit. Each program is assembled by the specification, its final state computed by "
               "the specification's interpreter, and replayed in the real kvm.KVM under both instruction sets, twice on fresh "
               "states; compared: ok/revert/fail, return data, every touched balance, nonce, storage slot, code, destroyed "
@@ -190,11 +239,12 @@ def run(c):
     c.assumptions = [
         "gas is abstract in the specification: programs run with 2^62 gas; runs in which the real machine meets an out-of-gas "
         "error that the specification does not predict are outside the comparison (counted as skipped_real_out_of_gas)",
-        "256-bit MUL/DIV/MOD/EXP/ADDMOD/MULMOD beyond operands < 2^15..2^31, SHA3, EXTCODEHASH, CREATE2, GAS, the cryptographic "
-        "precompiles and exact gas are not specified (TLC integers are 32-bit): such programs end 'oom' in the specification and "
-        "are only checked for the never-crashes clauses",
-        "addresses of created contracts are symbolic in the specification (Keccak is not computed); the driver substitutes "
-        "crypto.CreateAddress",
+        "inside generated PROGRAMS DIV/MOD/SDIV/SMOD/ADDMOD/MULMOD/EXP are specified on small operands only (MUL is exact); on "
+        "full 256-bit operands these instructions are checked one at a time by certificate (KVMArith: sampled operands, not "
+        "all); GAS, the cryptographic precompiles and exact gas are not specified: such programs end 'oom' in the specification "
+        "and are only checked for the never-crashes clauses",
+        "Keccak-256 is an uninterpreted injective function in the specification (no collisions; a hash is non-zero and >= 2^64); "
+        "the driver substitutes lib/crypto Keccak256 and crypto.CreateAddress, which are trusted",
         "the tracer hooks of the real machine (Config.Debug) are trusted to report the executed opcode, stack height, depth and "
         "per-frame error; the compared run is repeated without tracer",
     ]
@@ -276,6 +326,31 @@ def run(c):
         absorb(g)
         for k in ("random_opcodes_executed_v1", "random_opcodes_executed_v2"):
             totals[k] = g.get("extra", {}).get(k, 0)
+    # ---------------------------------------------------------------- 256-bit arithmetic: certificate checking
+    if not only or "arith" in only:
+        g = c.gotest("kvm", "TestArith", env=dict(KVM_ARITH_RANDOM=2400 if th else 120, KVM_ARITH_BIGEXP=16 if th else 0), timeout=900,
+                     tag="record arithmetic")
+        absorb(g)
+        nlines = int(g.get("extra", {}).get("arith_lines", 0))
+        c.traces -= int(g.get("behaviours", 0))                  # counted when TLC has checked the law
+        path = os.path.join(c.scratch, "kvm-arith.ndjson")
+        r = c.tlc("kvm", "KVMArith.cfg", module="KVMArith", files={"arith.ndjson": path}, timeout=2400, deadlock=True,
+                  tag="KVMArith", jvm=["-Xmx4g"], extra=["-checkpoint", "0"], workers=dev_workers)
+        if not r.ok:
+            raise Infra("TLC failed on KVMArith: %s %s\n%s" % (r.violated, r.error, c.tlc_tail(r)))
+        if r.distinct != nlines or nlines == 0:
+            raise Infra("KVMArith visited %d of %d lines" % (r.distinct, nlines))
+        import json as _json, re as _re
+        recs = [l for l in open(path)]
+        fails = sorted(set(int(x) for x in _re.findall(r'<<"LAWFAIL", (\d+)>>', open(r.out, errors="replace").read())))
+        for i in fails:
+            e = _json.loads(recs[i - 1])
+            hx = lambda v: "0x" + "".join("%02x" % b for b in v) if v else "-"
+            c.report("kvm:arith:%s:%s" % (e["op"], e["t"]),
+                     "the result of %s in the real machine (instruction set mask %d) violates the defining law: a=%s b=%s n=%s -> %s %s"
+                     % (e["op"], e["s"], hx(e["a"]), hx(e["b"]), hx(e["n"]), hx(e["r"]), hx(e["r2"])), e)
+        c.traces += nlines - len(fails)
+        totals["arith_laws_checked"] = nlines
     # ---------------------------------------------------------------- trace validation (code -> specification)
     if not only or "trace" in only:
         nfiles, nprog = (8, 400) if th else (2, 150)
